@@ -177,9 +177,9 @@ impl Engine for C09 {
     }
     fn runs(&self, quick: bool) -> u64 {
         if quick {
-            320
+            1_200
         } else {
-            12_000
+            40_000
         }
     }
 
